@@ -155,6 +155,12 @@ CHEUnwrap(Y, I, tag, key, S) ==
   IN IF DWPTag(Y, I, r, T) = tag THEN <<TRUE, CtrStream(Y, T, r, CheUpd)>> ELSE <<FALSE, <<>>>>
 
 -----------------------------------------------------------------------------
+\* the tag over a given ciphertext Y and associated data I (what StepG returns after StepI/StepA)
+AeadTag(Y, I, key, S, che) ==
+  LET T == KeyExpand(key)   s == F(S, T)
+  IN DWPTag(Y, I, IF che THEN s ELSE F(s, T), T)
+
+-----------------------------------------------------------------------------
 (* 7.8 KWP: Y = belt-wblock(X || I). *)
 KWPWrap(X, I, key) == WBLEncr(X \o I, key)
 KWPUnwrap(Y, I, key) == LET t == WBLDecr(Y, key) IN
